@@ -41,7 +41,7 @@ type c20ExploreC struct {
 	Note      string            `json:"note,omitempty"`
 }
 
-var c20Targets = []string{"strvals", "strvals", "values", "manifests", "archive", "chartfiles", "chartfiles", "lint", "index", "prov", "ignore", "plugin"}
+var c20Targets = []string{"strvals", "strvals", "values", "manifests", "archive", "chartfiles", "chartfiles", "lint", "index", "prov", "ignore", "plugin", "actions"}
 
 // ---------- seeds ----------
 
@@ -379,6 +379,10 @@ func c20ExploreCorpus() []any {
 	out = append(out, c20Case{Kind: "explore", Explore: &c20ExploreC{Target: "lint", Files: c20SeedChartFiles()}})
 	out = append(out, c20Case{Kind: "explore", Explore: &c20ExploreC{Target: "archive", Data: c20BuildTgz(c20FilesToTar(nil, c20SeedChartFiles(), "top/", false))}})
 	out = append(out, c20Case{Kind: "explore", Explore: &c20ExploreC{Target: "prov", Data: nil, Note: "unmodified"}})
+	// witnesses of the known finding K8 (action-level consumers of records without info / chart metadata)
+	for _, w := range [][2]string{{"list", "noinfo"}, {"status", "noinfo"}, {"getmetadata", "noinfo"}, {"getmetadata", "nochart"}, {"getmetadata", "nometa"}} {
+		out = append(out, c20Case{Kind: "explore", Explore: &c20ExploreC{Target: "actions", Note: w[0], Data: []byte(w[1]), Mutations: 1}})
+	}
 	// witness of 385b115: lint of a chart whose maintainers list has a null item
 	f := c20SeedChartFiles()
 	f["Chart.yaml"] = []byte("apiVersion: v2\nname: top\nversion: 1.2.3\nmaintainers:\n- null\n")
@@ -420,6 +424,13 @@ func c20GenExplore(r *rand.Rand) *c20ExploreC {
 		raw(c20SeedIgnore, false)
 	case "plugin":
 		raw(c20SeedPlugin, true)
+	case "actions":
+		kinds := []string{"noinfo", "nochart", "nometa", "valid", "garbage"}
+		e.Note = c20ActionNames[r.Intn(len(c20ActionNames))]
+		e.Data = []byte(kinds[r.Intn(len(kinds))])
+		if string(e.Data) != "valid" {
+			e.Mutations = 1
+		}
 	case "prov":
 		e.Mutations = 1 + r.Intn(3)
 		e.Data = []byte{byte(r.Intn(256)), byte(r.Intn(256)), byte(r.Intn(256)), byte(r.Intn(256)), byte(r.Intn(256)), byte(r.Intn(256)), byte(r.Intn(256)), byte(r.Intn(256))} // mutation seed
@@ -638,6 +649,8 @@ func c20RunExplore(e *c20ExploreC, step *string) (accepted bool) {
 		return true
 	case "prov":
 		return c20RunProv(e, step)
+	case "actions":
+		return c20RunAction(e, step)
 	case "archive":
 		*step = "loader.LoadArchive"
 		c, err := loader.LoadArchive(bytes.NewReader(e.Data))
